@@ -249,6 +249,51 @@ Section Resolver.
     Section Level.
       Variable rlen : nat.     (* r.Len() of the resolver in use (NOT the function literal's when one is scanned) *)
 
+      (* the loop over the results of a function-literal argument (343-351); cres = the callee's results *)
+      Definition closure_loop (cres : list rdecl) (f : nat) (k : cont) : list rdecl -> nat -> state -> res state :=
+        fix go (rs : list rdecl) (j : nat) (s : state) {struct rs} : res state :=
+          match rs with
+          | [] => Ok s
+          | own :: rs' =>
+              let! t :=
+                (if fx_closure fx then Ok (r_ty own)
+                 else match nth_error cres j with           (* rets.At(inlineRetAt) *)
+                      | Some r => Ok (r_ty r)
+                      | None => Panic
+                      end) in
+              let! s' := (if is_error t then rec rlen f j k s else Ok s) in
+              go rs' (S j) s'
+          end.
+
+      (* the loop over the arguments of a call whose result prints as "error" (324-354);
+         self = callExprResultAt on an argument *)
+      Definition args_loop (self : expr -> nat -> cont -> state -> res state) (c : call) (k : cont)
+        : list expr -> nat -> state -> res state :=
+        fix go (l : list expr) (i : nat) (s : state) {struct l} : res state :=
+          match l with
+          | [] => Ok s
+          | arg :: rest =>
+              let! s1 :=
+                (if nth i (c_perr c) false then
+                   (* resultsAtReturnOrAssignment(vs, []ast.Expr{arg}, 1, 0) *)
+                   match arg with
+                   | ECall _ _ => self arg 0 k s
+                   | EVal a => k a s
+                   | EFuncLit _ a => k a s
+                   end
+                 else Ok s) in
+              let! s2 :=
+                (match arg with
+                 | EFuncLit f _ =>
+                     match nth_error p f with
+                     | None => Ok s1
+                     | Some fd => closure_loop (c_res c) f k (f_res fd) 0 s1
+                     end
+                 | _ => Ok s1
+                 end) in
+              go rest (S i) s2
+          end.
+
       (* callExprResultAt (310-373) followed by resultsAt (116-147) *)
       Fixpoint call_at (e : expr) (at_ : nat) (k : cont) (s : state) {struct e} : res state :=
         match e with
@@ -258,46 +303,7 @@ Section Resolver.
             | None => Ok s
             | Some rt =>
                 if follows (r_ty rt) then
-                  let! s1 :=
-                    (if is_error (r_ty rt) then
-                       (fix args_loop (l : list expr) (i : nat) (s : state) {struct l} : res state :=
-                          match l with
-                          | [] => Ok s
-                          | arg :: rest =>
-                              let! s1 :=
-                                (if nth i (c_perr c) false then
-                                   (* resultsAtReturnOrAssignment(vs, []ast.Expr{arg}, 1, 0) *)
-                                   match arg with
-                                   | ECall _ _ => call_at arg 0 k s
-                                   | EVal a => k a s
-                                   | EFuncLit _ a => k a s
-                                   end
-                                 else Ok s) in
-                              let! s2 :=
-                                (match arg with
-                                 | EFuncLit f _ =>
-                                     match nth_error p f with
-                                     | None => Ok s1
-                                     | Some fd =>
-                                         (fix closure_loop (rs : list rdecl) (j : nat) (s : state) {struct rs} : res state :=
-                                            match rs with
-                                            | [] => Ok s
-                                            | own :: rs' =>
-                                                let! t :=
-                                                  (if fx_closure fx then Ok (r_ty own)
-                                                   else match nth_error (c_res c) j with   (* rets.At(inlineRetAt) *)
-                                                        | Some r => Ok (r_ty r)
-                                                        | None => Panic
-                                                        end) in
-                                                let! s' := (if is_error t then rec rlen f j k s else Ok s) in
-                                                closure_loop rs' (S j) s'
-                                            end) (f_res fd) 0 s1
-                                     end
-                                 | _ => Ok s1
-                                 end) in
-                              args_loop rest (S i) s2
-                          end) args 0 s
-                     else Ok s) in
+                  let! s1 := (if is_error (r_ty rt) then args_loop call_at c k args 0 s else Ok s) in
                   match c_target c with
                   | TgBody f =>
                       match nth_error p f with
@@ -482,6 +488,13 @@ Definition good_alt (os : otys) (T : ty) (a : alt) : bool :=
   | XOther => true
   end.
 
+Fixpoint opt_all {A} (l : list (option A)) : option (list A) :=
+  match l with
+  | [] => Some []
+  | Some a :: r => match opt_all r with Some r' => Some (a :: r') | None => None end
+  | None :: _ => None
+  end.
+
 Fixpoint forallb2 {A B} (f : A -> B -> bool) (l1 : list A) (l2 : list B) : bool :=
   match l1, l2 with
   | [], [] => true
@@ -503,28 +516,26 @@ Section Typing.
     | TgNone => true
     end.
 
-  (* e is used where one value of type T is expected.  Only the arguments the resolver looks at are constrained:
-     those passed for a parameter whose type prints as "error". *)
+  (* the arguments the resolver looks at: those passed for a parameter whose type prints as "error" *)
+  Definition wt_args_with (self : ty -> expr -> bool) (c : call) : list expr -> nat -> bool :=
+    fix go (l : list expr) (i : nat) {struct l} : bool :=
+      match l with
+      | [] => true
+      | a :: r => (if nth i (c_perr c) false then self TError a else true) && go r (S i)
+      end.
+
+  (* e is used where one value of type T is expected *)
   Fixpoint wt_expr (T : ty) (e : expr) {struct e} : bool :=
     match e with
     | EVal a => good_alt os T a
     | EFuncLit _ a => good_alt os T a
     | ECall c args =>
         target_ok c
-        && (fix wt_args (l : list expr) (i : nat) {struct l} : bool :=
-              match l with
-              | [] => true
-              | a :: r => (if nth i (c_perr c) false then wt_expr TError a else true) && wt_args r (S i)
-              end) args 0
+        && wt_args_with wt_expr c args 0
         && (negb (c_issig c) || match c_res c with [r] => assignable (r_ty r) T | _ => false end)
     end.
 
-  Definition wt_args (c : call) (args : list expr) : bool :=
-    (fix go (l : list expr) (i : nat) {struct l} : bool :=
-       match l with
-       | [] => true
-       | a :: r => (if nth i (c_perr c) false then wt_expr TError a else true) && go r (S i)
-       end) args 0.
+  Definition wt_args (c : call) (args : list expr) : bool := wt_args_with wt_expr c args 0.
 
   (* es is the right-hand side of a return / assignment whose places have the types Ts *)
   Definition wt_tuple (Ts : list ty) (es : list expr) : bool :=
@@ -540,13 +551,6 @@ Section Typing.
     match l with
     | LIdent (Some o) | LSel (Some o) => oty os o
     | _ => Some TAny                       (* blank identifier, index expressions...: never looked up *)
-    end.
-
-  Fixpoint opt_all {A} (l : list (option A)) : option (list A) :=
-    match l with
-    | [] => Some []
-    | Some a :: r => match opt_all r with Some r' => Some (a :: r') | None => None end
-    | None :: _ => None
     end.
 
   Definition wt_event (rs : list rdecl) (ev : event) : bool :=
@@ -586,3 +590,50 @@ Definition entry_ok (p : prog) (en : entry) (sigres : list rdecl) : bool :=
       end
   | _ => true
   end.
+
+(* ---- literal-only functions ---- *)
+
+(* a function whose return statements list only "plain" expressions: anything whose Result.Expr is not re-inspected
+   (literals and operators on them are of this kind), or an identifier that no assignment of the body mentions and
+   that the parser does not resolve (nil, true, false) *)
+Definition lhs_objs (evs : list event) : list N :=
+  flat_map (fun ev => match ev with
+                      | EvAssign a => flat_map (fun l => match l with LIdent (Some o) | LSel (Some o) => [o] | _ => [] end) (as_lhs a)
+                      | _ => []
+                      end) evs.
+
+Definition plain_alt (assigned : list N) (a : alt) : bool :=
+  match a_x a with
+  | XOther => true
+  | XIdent false o => negb (existsb (N.eqb o) assigned)
+  | _ => false
+  end.
+
+Definition plain_expr (assigned : list N) (e : expr) : option alt :=
+  match e with
+  | EVal a => if plain_alt assigned a then Some a else None
+  | _ => None
+  end.
+
+(* Some rows: the function is of that kind; rows = the values of its return statements, in source order *)
+Definition plain_returns (fd : fdef) : option (list (list alt)) :=
+  match f_body fd with
+  | None => None
+  | Some body =>
+      let evs := flatten_all body in
+      let assigned := lhs_objs evs in
+      let rows := flat_map (fun ev => match ev with
+                                      | EvReturn _ (Some es) =>
+                                          if Nat.eqb (length es) (nres fd) then [opt_all (map (plain_expr assigned) es)] else [None]
+                                      | EvReturn _ None => [None]
+                                      | EvAssign _ => []
+                                      end) evs in
+      match opt_all rows with
+      | Some (r :: rs) => Some (r :: rs)
+      | _ => None
+      end
+  end.
+
+Definition column (rows : list (list alt)) (i : nat) : list alt :=
+  flat_map (fun row => match nth_error row i with Some a => [a] | None => [] end) rows.
+
